@@ -209,6 +209,16 @@ func VH_heapq_Step() {
 		vCover("clear")
 		vCheckQueue(q, held, dir, "Clear")
 	}
+	if vCase("then") == 1 {
+		// the queue stays usable: two more Adds, checked under the current comparison
+		for i := 0; i < 2; i++ {
+			y := vElem{vOrd("y"), 300 + i}
+			q.Add(y)
+			held = append(append([]vElem{}, held...), y)
+		}
+		vCover("then-add")
+		vCheckQueue(q, held, dir, "Adds after the operation")
+	}
 	vDrain(q, held, vCase("drain"), dir, "after op")
 }
 
